@@ -7,6 +7,7 @@
 -/
 import Mathlib.Tactic
 import UmapModel.Api
+import UmapModel.Pipeline
 
 namespace Umap
 namespace C10
@@ -149,6 +150,37 @@ theorem pinned_update_differs :
 theorem update_preserves_inv (s : St) (b : Nat × Nat) (h : C10.Inv s) :
     C10.Inv (step false s (.update b)).1 ∧ (step false s (.update b)).1.raw = s.raw ++ [b] :=
   ⟨C10.inv_step s (.update b) h, rfl⟩
+
+end C11
+end Umap
+
+namespace Umap
+namespace C11
+
+/-- `init_update` is defined for every neighbour table: a new sample without any original
+    neighbour keeps its initial row (the pinned code divided by the zero count). -/
+theorem init_update_no_original {K : Type} [Field K] [LinearOrder K] [IsStrictOrderedRing K]
+    (nOrig dim : Nat) (orig : Nat → List K) (row0 : List K) (nbrs : List Nat)
+    (h : ∀ j ∈ nbrs, nOrig ≤ j) (hd : row0.length = dim) :
+    Pipeline.initUpdateRow nOrig dim orig row0 nbrs = row0 := by
+  unfold Pipeline.initUpdateRow
+  have hf : nbrs.filter (· < nOrig) = [] := by
+    rw [List.filter_eq_nil_iff]
+    intro j hj; simp only [decide_eq_true_eq, not_lt]; exact h j hj
+  simp only [hf, List.length_nil, Nat.zero_mul, if_true, List.foldl_nil]
+  apply List.ext_getElem
+  · simp [hd]
+  · intro i h1 h2
+    simp only [List.getElem_map, List.getElem_range]
+    rw [List.getD_eq_getElem?_getD, List.getElem?_eq_getElem h2, Option.getD_some]
+
+/-- the result always has one value per embedding dimension. -/
+theorem init_update_length {K : Type} [Field K] [LinearOrder K] [IsStrictOrderedRing K]
+    (nOrig dim : Nat) (orig : Nat → List K) (row0 : List K) (nbrs : List Nat) :
+    (Pipeline.initUpdateRow nOrig dim orig row0 nbrs).length = dim := by
+  unfold Pipeline.initUpdateRow
+  simp only
+  split_ifs <;> simp
 
 end C11
 end Umap
